@@ -245,8 +245,13 @@ def r6_shutdown_observed(ctx, F):
             sp = Spawn(F, strat)
             w = sp.worker
             cc = sp.check_call
-            readers = [c.bb for c in w.calls_to('JobBroker::pop', 'JobBroker::push', 'JobBroker::split_and_push',
-                                                'JobBroker::is_open', 'JobBroker::is_shut_down')]
+            # calls through which a closed market makes this worker stop: pop() returns an empty batch,
+            # is_open() is branched on, split_and_push() empties the caller's queue when the market is
+            # closed (so the next lap pops an empty batch) - the last one only if its summary holds
+            names = ['JobBroker::pop', 'JobBroker::is_open']
+            if split_clears_when_closed(F):
+                names.append('JobBroker::split_and_push')
+            readers = [c.bb for c in w.calls_to(*names)]
             for sw in w.switches:
                 if sw.on.kind == 'call':
                     c = w.call_at(sw.on.key)
@@ -258,6 +263,23 @@ def r6_shutdown_observed(ctx, F):
                       bad='%s worker: there is a cycle through check_block that never looks at the '
                           'shutdown state (market.open / shutdown flag): a worker that keeps finding work in '
                           'its own queue ignores a timeout and the stop of its siblings' % strat)
+
+
+def split_clears_when_closed(F):
+    """callee summary: on the `open == false` path split_and_push clears the caller's queue"""
+    b = F.bodies.get('job_market::JobBroker::<Job>::split_and_push')
+    if b is None:
+        return False
+    fe = []
+    for sw in b.switches:
+        if sw.kind == 'bool' and noref(sw.on).fields()[-1:] == ('.open',):
+            fe += sw.edges_for(False)
+    clears = [c.bb for c in b.calls_to('VecDeque::clear', 'VecDeque::drain', 'VecDeque::truncate')
+              if noref(b.val(c.args[0])) == V('arg', 2)]
+    if not fe or not clears:
+        return False
+    r = b.reach([e[1] for e in fe], cut_blocks=clears)
+    return not any(x in r for x in b.returns)
 
 
 def r7_seed(ctx, F):
